@@ -319,6 +319,12 @@ func drawValidComps(t *rapid.T, label string) []*MComp {
 	for i := range cs {
 		cs[i] = drawComp(t, true, label)
 	}
+	if rapid.IntRange(0, 5).Draw(t, label+".twin") == 0 {
+		// two components that are EQUAL field by field (distinct objects),
+		// next to each other: the same image in two slots
+		i := rapid.IntRange(0, n-1).Draw(t, label+".twin.of")
+		cs = append(cs[:i+1], append([]*MComp{cs[i].Clone()}, cs[i+1:]...)...)
+	}
 	return cs
 }
 
@@ -373,12 +379,14 @@ func deviate(t *rapid.T, m *MClaims, c Claim, literalOnly bool) {
 		if p == P1 {
 			m.Profile = sp(rapid.SampledFrom([]string{P2Name, "", "PSA_IOT_PROFILE_2", "psa_iot_profile_1", "http://example.com/x", "PSA_IOT_PROFILE_1 ", " PSA_IOT_PROFILE_1", "PSA_IOT_PROFILE_1\x00",
 				// long wrong names (messages that echo them get long)
+				"a missing optional claim", "not in profile", "claim not in profile", "missing mandatory claim", "wrong syntax", "%!w(<nil>)",
 				"PSA_IOT_PROFILE_1" + strings.Repeat("_X", 150), strings.Repeat("é", 200), "http://example.com/" + strings.Repeat("a", 1000)}).Draw(t, "profile.bad"))
 		} else {
 			if genBool.Draw(t, "profile.absent") {
 				m.Profile = nil
 			} else {
 				m.Profile = sp(rapid.SampledFrom([]string{"http://example.com/other", "http://arm.com/psa/2.0.1", "1.2.3.4", "http://arm.com/psa/2.0.0/", "HTTP://arm.com/psa/2.0.0", "Http://arm.com/psa/2.0.0", "http://arm.com/psa/2.0.0#", "http://arm.com/psa/2.0.0?", "http://ARM.com/psa/2.0.0", "http://arm.com:80/psa/2.0.0", "http://arm.com/psa/2.0.0 ", "http://arm.com/psa/2%2E0.0",
+					"urn:missing optional", "urn:x:not in profile", "http://example.com/missing%20optional",
 					"http://arm.com/psa/2.0.0/" + strings.Repeat("x", 300), "http://example.com/" + strings.Repeat("é", 200), "urn:" + strings.Repeat("a", 1000)}).Draw(t, "profile.bad"))
 			}
 		}
